@@ -499,10 +499,10 @@ func (g *c06QGen) sels(typ string, depth int, path string) string {
 		case "B":
 			scal, objs = []string{"id", "b0", "b1", "__typename"}, []string{"a", "as"}
 		case "Query":
-			scal, objs = []string{"num"}, []string{"as", "bs", "us", "oneA", "as", "bs"}
+			scal, objs = []string{"num", "__typename"}, []string{"as", "bs", "us", "oneA", "as", "bs"}
 		}
 		var name, args string
-		isObj := depth > 0 && (typ == "Query" || r.Chance(0.4)) && len(objs) > 0
+		isObj := depth > 0 && ((typ == "Query" && r.Chance(0.8)) || (typ != "Query" && r.Chance(0.4))) && len(objs) > 0
 		if isObj {
 			name = objs[r.Intn(len(objs))]
 		} else {
